@@ -82,6 +82,7 @@ class GEngine(object):
         allj = list(corpus)
         allj += J.api_jobs()[: cfg["api"]] if cfg["api"] < 1000 else J.api_jobs()
         allj += pool.nopath_api_jobs()
+        allj += pool.shared_splicer_jobs()
         allj += pool.swarm_jobs(self.seeds, cfg["swarm"], corpus)
         allj += synth.synth_jobs(self.seeds, cfg["synth"])
         poisons = pool.poison_jobs(self.seeds, cfg["poison"], corpus)
@@ -149,8 +150,15 @@ class GEngine(object):
 
     # ------------------------------------------------------------ rounds
     def make_gen(self, round_no):
-        return gen.HistoryGen(self.seeds, self.targets, self.poisons, self.goldens,
-                              api_ok=self.api_ok, round_no=round_no)
+        g = gen.HistoryGen(self.seeds, self.targets, self.poisons, self.goldens,
+                           api_ok=self.api_ok, round_no=round_no)
+        groups = {}
+        for jid in self.targets:
+            j = self.jobs[jid]
+            key = "apinp" if jid.startswith("apinp/") else "yaml:" + str(j.meta.get("yaml"))
+            groups.setdefault(key, []).append(jid)
+        g.groups = {k: v for k, v in groups.items() if len(v) >= 2}
+        return g
 
     def tweak_spec(self, spec):
         spec["prop"] = self.prop
